@@ -20,6 +20,7 @@ import (
 	"github.com/go-text/typesetting/di"
 	"github.com/go-text/typesetting/font"
 	ot "github.com/go-text/typesetting/font/opentype"
+	"github.com/go-text/typesetting/font/opentype/tables"
 	"github.com/go-text/typesetting/language"
 	"github.com/go-text/typesetting/segmenter"
 	"github.com/go-text/typesetting/shaping"
@@ -210,12 +211,22 @@ func reuseShaper(r recEnc, ops []reuseOp) {
 func reuseFace(r recEnc, ops []reuseOp) {
 	f := newVarFace(0)
 	w, ppem := 0, 0
+	var coordBuf []tables.Coord
 	for _, op := range ops {
 		switch op.Op {
 		case "SetVariations":
 			w = op.W
 			if op.W == 0 {
 				f.SetVariations(nil) // back to the default instance
+			} else if r.t%2 == 1 {
+				// every second history: the two-step public path (normalized coordinates, then SetCoords) with a
+				// caller-owned coordinate buffer that is edited in place from one instance to the next
+				n := newVarFace(op.W).Coords()
+				if len(coordBuf) != len(n) {
+					coordBuf = make([]tables.Coord, len(n))
+				}
+				copy(coordBuf, n)
+				f.SetCoords(coordBuf)
 			} else {
 				f.SetVariations([]font.Variation{{Tag: wghtTag, Value: float32(op.W)}})
 			}
